@@ -183,6 +183,26 @@ def nonneg(ctx, node, e, depth=8):
 
 
 # -- TBR structure ------------------------------------------------------------------------
+ORDERING_OPS = {'groupby', 'pivot_table', 'pivot', 'sort_index', 'sort_values', 'resample', 'sorted', 'sort', 'argsort', 'reindex', 'unstack', 'stack', 'merge',
+                'join', 'crosstab', 'lexsort'}
+
+
+def _feeding_calls(ctx, node, expr):
+  """Names of all functions/methods called in `expr` and, transitively, in every definition that may reach a local it reads."""
+  ops, seen, work = set(), set(), [(node, expr)]
+  while work and len(seen) < 200:
+    n_, x_ = work.pop()
+    for sub in ast.walk(x_):
+      if isinstance(sub, ast.Call):
+        ops.add(sub.func.attr if isinstance(sub.func, ast.Attribute) else norm(sub.func))
+      if isinstance(sub, ast.Name) and isinstance(sub.ctx, ast.Load):
+        for d_ in ctx.rd.defs_at(n_, sub.id):
+          if d_.value is not None and id(d_) not in seen:
+            seen.add(id(d_))
+            work.append((d_.node, d_.value))
+  return ops
+
+
 def tbr_aggregation(repo, rep, rule):
   cls = repo.cls('tbr.TBR')
   fit = cls.methods.get('fit')
@@ -201,26 +221,38 @@ def tbr_aggregation(repo, rep, rule):
   ctx = FuncCtx.of(con)
   data = con.params[1]
   st = [n for n in ctx.g.nodes if n.kind == 'stmt' and isinstance(n.ast, ast.Assign) and any(norm(t) == 'self.analysis_data' for t in n.ast.targets)]
-  if len(st) != 1:
-    rep.undecided(rule, '_construct_analysis_data', 'expected one store to self.analysis_data', con.loc())
+  if not st:
+    rep.undecided(rule, '_construct_analysis_data', 'expected a store to self.analysis_data', con.loc())
     return
-  ex = ctx.rd.expand(st[0], st[0].ast.value, keep=(data,))[0]
-  t = norm(ex)
-  m = re.fullmatch(r"%s\.groupby\((.+?)\)\.agg\((.+)\)" % data, t)
-  good = False
-  why = 'shape'
-  if m:
-    gargs, aargs = m.group(1), m.group(2)
-    keys_ok = re.match(r'\[self\.df_names\.group, self\.df_names\.date\]', gargs) is not None
-    extra = gargs[len('[self.df_names.group, self.df_names.date]'):] if keys_ok else gargs
-    agg_ok = aargs.replace(' ', '') in ("{self.target:'sum',self.df_names.period:'max'}", "{self.df_names.period:'max',self.target:'sum'}")
-    sort_off = 'sort=False' in extra
-    asidx = 'as_index=False' in extra
-    good = keys_ok and agg_ok and not sort_off and not asidx
-    why = ('groupby keys are %s' % gargs if not keys_ok else '') + (' aggregation is %s' % aargs if not agg_ok else '') + \
-          (' sort=False keeps the input row order, so the per-date series follow the order of the input rows' if sort_off else '') + (' as_index=False' if asidx else '')
-  rep.check(good, rule, 'analysis data = per-(group, date) sums, sorted by the keys', con.qualname, t[:160],
-            'the analysis data are built as `%s`: %s' % (t[:120], why), con.loc(st[0].ast))
+  for st0 in st:
+    ex = ctx.rd.expand(st0, st0.ast.value, keep=(data,))[0]
+    t = norm(ex)
+    m = re.fullmatch(r"%s\.groupby\((.+?)\)\.agg\((.+)\)" % data, t)
+    good = False
+    why = 'shape'
+    if m:
+      gargs, aargs = m.group(1), m.group(2)
+      keys_ok = re.match(r'\[self\.df_names\.group, self\.df_names\.date\]', gargs) is not None
+      extra = gargs[len('[self.df_names.group, self.df_names.date]'):] if keys_ok else gargs
+      agg_ok = aargs.replace(' ', '') in ("{self.target:'sum',self.df_names.period:'max'}", "{self.df_names.period:'max',self.target:'sum'}")
+      sort_off = 'sort=False' in extra
+      asidx = 'as_index=False' in extra
+      good = keys_ok and agg_ok and not sort_off and not asidx
+      why = ('groupby keys are %s' % gargs if not keys_ok else '') + (' aggregation is %s' % aargs if not agg_ok else '') + \
+            (' sort=False keeps the input row order, so the per-date series follow the order of the input rows' if sort_off else '') + (' as_index=False' if asidx else '')
+    elif len(st) > 1:
+      # one of several stores (a fast path next to the aggregation): the stored frame must at least be ordered by its
+      # keys somewhere on the way from the raw rows; a store with no ordering operation at all keeps the input row order
+      ops = _feeding_calls(ctx, st0, st0.ast.value)
+      if not (ops & ORDERING_OPS):
+        rep.violation(rule, con.qualname, t[:160],
+                      'on one path the analysis data are stored as `%s` with no grouping or sorting by (group, date) on the way from the raw rows (operations: %s): the series keep the order of the input rows, so row order changes the fit'
+                      % (t[:100], ', '.join(sorted(ops)) or 'none'), con.loc(st0.ast))
+      else:
+        rep.undecided(rule, '_construct_analysis_data', 'one of %d stores to self.analysis_data has an unrecognised shape: %s' % (len(st), t[:80]), con.loc(st0.ast))
+      continue
+    rep.check(good, rule, 'analysis data = per-(group, date) sums, sorted by the keys', con.qualname, t[:160],
+              'the analysis data are built as `%s`: %s' % (t[:120], why), con.loc(st0.ast))
   # label-based selection of the two groups
   for name, grp in (('_response_vector', 'self.groups.treatment'), ('_design_matrix', 'self.groups.control')):
     f = cls.methods.get(name)
